@@ -332,7 +332,23 @@ CHECKS = {"compile": check_compile, "toast": check_toast, "tofunc": check_tofunc
 def expr_for(draw, frag):
     kind = draw(st.sampled_from(("INT", "NUM", "NUM", "BOOL")))
     ex = draw(S.expr(kind, draw(st.integers(1, 5)), frag))
-    c = draw(st.integers(0, 14))
+    c = draw(st.integers(0, 16))
+    if c >= 15:
+        # slices (with omitted parts) of the tuple aggregate A
+        small = lambda: draw(st.sampled_from([  # noqa: E731
+            None, ["Const", "int", draw(st.integers(-3, 4))], ["Var", "k"],
+            ["Remainder", draw(S.expr("INT", 1, frag)), ["Const", "int", 4]]]))
+        parts = [small() for _ in range(draw(st.integers(2, 3)))]
+        if len(parts) == 3 and parts[2] is not None and parts[2][0] == "Const" \
+                and parts[2][2] == 0:
+            parts[2] = ["Const", "int", 2]
+        if all(q is None for q in parts):
+            parts = [None]
+        ex = ["Subscript", ["Var", "A"], ["Slice", parts]]
+        if draw(st.booleans()):
+            ex = ["Call", ["Var", "h"], [["Subscript", ex, ["Const", "int", 0]]]] \
+                if False else ex
+        return ex
     if c == 0:
         ex = ["Tuple", [ex, draw(S.expr("INT", 2, frag))]]
     elif c == 1:
